@@ -14,7 +14,7 @@ import (
 
 func init() {
 	Registry["C18"] = Set{
-		Explanation: "Decides structural clauses of event delivery: V1 in RouteSendEvent the fan-out of a local producer's publication is reachable only through the edge on which the presented token equals the registered token (unknown event and wrong token return errors), the publication is appended to the replay buffer before the consumer list is read, each listed local consumer gets exactly one send of this very message with the publisher as sender, and each remote node gets one frame; V2 in the four subscribe functions the relation is inserted before the replay buffer is snapshotted (no publication can fall between), the consumer counter is changed by exactly +1 after a successful insert / -1 after a successful removal, and the producer is notified with MessageEventStart exactly on the counter value 1 after +1 and with MessageEventStop exactly on 0 after -1, only when notifications are enabled; V3 unregistering an event and the owner's termination both reach RouteTerminateEvent for it, and only the owner may unregister. Added while probing: V1 every element of the subscriber list is either sent to locally or its node recorded in the set the frame loop ranges over. V4 the subscriber counter follows the relation set: the process release function counts a terminating subscriber out of the events it was subscribed to (both lists of CleanupConsumer), with MessageEventStop at zero. V5 = C06.G7 for events: a failed RegisterEvent leaves no entry behind, so the termination of the loser does not unregister the owner's event.",
+		Explanation: "Decides structural clauses of event delivery: V1 in RouteSendEvent the fan-out of a local producer's publication is reachable only through the edge on which the presented token equals the registered token (unknown event and wrong token return errors), the publication is appended to the replay buffer before the consumer list is read, each listed local consumer gets exactly one send of this very message with the publisher as sender, and each remote node gets one frame; V2 in the four subscribe functions the relation is inserted before the replay buffer is snapshotted (no publication can fall between), the consumer counter is changed by exactly +1 after a successful insert / -1 after a successful removal, and the producer is notified with MessageEventStart exactly on the counter value 1 after +1 and with MessageEventStop exactly on 0 after -1, only when notifications are enabled; V3 unregistering an event and the owner's termination both reach RouteTerminateEvent for it, and only the owner may unregister. Added while probing: V1 every element of the subscriber list is either sent to locally or its node recorded in the set the frame loop ranges over. V4 the subscriber counter follows the relation set: the process release function counts a terminating subscriber out of the events it was subscribed to (both lists of CleanupConsumer), with MessageEventStop at zero. V5 = C06.G7 for events: a failed RegisterEvent leaves no entry behind, so the termination of the loser does not unregister the owner's event. V6 the local fan-out sends to a pid only behind the miss edge of a lookup in a set of served pids which it then enters (the consumer list holds a process once per relation). V7 every operation on an event's replay buffer — the push and the whole walk of a new subscriber (Item, Value, Next) — is made while that event's buffer lock is held.",
 		NotDecided: []string{
 			"per-publisher order and exactly-once under the subscribe-while-publishing window (consumer list is read without a lock against subscription)",
 			"delivery of each message (C02), remote framing (C12)",
@@ -38,6 +38,10 @@ func runC18(p *load.Program, r *core.Report) {
 		if f.Parent() == nil && f.Name() == "RouteSendEvent" && recvIs(f, a.NodeT) {
 			send = f
 		}
+	}
+	c18BufferLocked(a, r)
+	if send != nil {
+		c18ServedOnce(a, r, send)
 	}
 	rule := "C18.V1 publish"
 	r.Floor(rule, 4)
@@ -217,8 +221,52 @@ func runC18(p *load.Program, r *core.Report) {
 				}
 			})
 			var sets []ssa.Value
+			// "already served": the hit edge of a lookup of this element in a set of served pids (V6)
+			servedBlocks := map[*ssa.BasicBlock]bool{}
+			servedTests := map[ssa.Instruction]bool{} // the branch on served[pid] whose miss edge leads to the one send
+			eachInstr(send, func(in ssa.Instruction) {
+				iff, isIf := in.(*ssa.If)
+				if !isIf {
+					return
+				}
+				lk, ok := iff.Cond.(*ssa.Lookup)
+				if !ok || lk.CommaOk {
+					return
+				}
+				if mt, okm := lk.X.Type().Underlying().(*types.Map); !okm || namedOf(mt.Key()) != "gen.PID" {
+					return
+				}
+				if _, miss, complete := boolEdges(lk); complete && len(miss) > 0 && edgesDominate(miss, sends[0]) {
+					servedTests[in] = true
+				}
+			})
+			eachInstr(send, func(in ssa.Instruction) {
+				lk, ok := in.(*ssa.Lookup)
+				if !ok || lk.CommaOk {
+					return
+				}
+				mt, okm := lk.X.Type().Underlying().(*types.Map)
+				if !okm || namedOf(mt.Key()) != "gen.PID" {
+					return
+				}
+				hit, _, complete := boolEdges(lk)
+				if !complete {
+					return
+				}
+				for _, e := range hit {
+					if b := e.To(); len(b.Preds) == 1 {
+						servedBlocks[b] = true
+					}
+				}
+			})
 			isServe := func(in ssa.Instruction) bool {
 				if in == sends[0] {
+					return true
+				}
+				if b := in.Block(); servedBlocks[b] && len(b.Instrs) > 0 && b.Instrs[0] == in {
+					return true
+				}
+				if servedTests[in] {
 					return true
 				}
 				if mu, ok := in.(*ssa.MapUpdate); ok {
@@ -640,3 +688,131 @@ func c18CounterFollowsRelations(a *Anchors, r *core.Report) {
 }
 
 var _ = load.Module
+
+// c18ServedOnce: V6 — the consumer list of an event holds a process once per RELATION: a process that
+// has a link and a monitor on the event is there twice. The local fan-out sends to a pid only behind
+// the miss edge of a lookup in a set of served pids, which it then enters.
+func c18ServedOnce(a *Anchors, r *core.Report, send *ssa.Function) {
+	rule := "C18.V6 publication-sent-once-per-process"
+	r.Floor(rule, 1)
+	fn := fname(send)
+	key := "C18.V6|" + fn
+	inst := "a subscriber that holds two relations on the event (link and monitor) is sent the publication once"
+	var sends []ssa.Instruction
+	eachInstr(send, func(in ssa.Instruction) {
+		if callsNamed(in, "sendEventMessage") {
+			sends = append(sends, in)
+		}
+	})
+	if len(sends) == 0 {
+		r.Unk(rule, key, fn, a.P.Pos(send.Pos()), inst, "no local event send found")
+		return
+	}
+	for _, s := range sends {
+		pid := callCommon(s).Args[2]
+		ok := false
+		eachInstr(send, func(in ssa.Instruction) {
+			lk, isLk := in.(*ssa.Lookup)
+			if !isLk || lk.CommaOk {
+				return
+			}
+			if _, isMap := lk.X.Type().Underlying().(*types.Map); !isMap {
+				return
+			}
+			if lk.Index != pid && resolveLocalCopy(lk.Index) != resolveLocalCopy(pid) {
+				return
+			}
+			_, miss, complete := boolEdges(lk)
+			if !complete || len(miss) == 0 || !edgesDominate(miss, s) {
+				return
+			}
+			// entered into the set on the way
+			entered := false
+			eachInstr(send, func(x ssa.Instruction) {
+				if mu, isMu := x.(*ssa.MapUpdate); isMu && mu.Map == lk.X && (mu.Key == pid || resolveLocalCopy(mu.Key) == resolveLocalCopy(pid)) && edgesDominate(miss, x) {
+					entered = true
+				}
+			})
+			if entered {
+				ok = true
+			}
+		})
+		if ok {
+			r.OK(rule, key, fn, a.P.Pos(s.Pos()), inst, "send behind the miss edge of served[pid], which is then set")
+		} else {
+			r.Bad(rule, key, fn, a.P.Pos(s.Pos()), inst, "the fan-out sends once per list entry: a process with a link and a monitor on the event handles every publication twice")
+		}
+	}
+}
+
+// c18BufferLocked: V7 — the replay buffer is a queue whose push drops (and clears) the oldest item when
+// it is full; a subscriber walks the same items to collect the last N messages. Every operation on an
+// event's buffer — the push and the whole walk (Item, Value, Next) — happens while that event's buffer
+// lock is held.
+func c18BufferLocked(a *Anchors, r *core.Report) {
+	rule := "C18.V7 replay-buffer-accessed-under-its-lock"
+	r.Floor(rule, 3)
+	evT := a.P.Named("node", "eventOwner")
+	if evT == nil {
+		r.Unk(rule, "C18.V7|type", "", "", "event owner type found", "not found")
+		return
+	}
+	for _, f := range funcsOfPkgs(a.P, "node") {
+		var ops []ssa.Instruction
+		eachInstr(f, func(in ssa.Instruction) {
+			cc := callCommon(in)
+			if cc == nil || !cc.IsInvoke() {
+				return
+			}
+			// invoke on ev.last, or on an item of the queue
+			if b, path, okp := fieldPath(cc.Value); okp && len(path) > 0 && path[len(path)-1] == "last" {
+				if t := b.Type(); strings.HasSuffix(t.String(), "eventOwner") {
+					ops = append(ops, in)
+					return
+				}
+			}
+			if strings.HasSuffix(cc.Value.Type().String(), "ItemMPSC") && (cc.Method.Name() == "Value" || cc.Method.Name() == "Next") {
+				ops = append(ops, in)
+			}
+		})
+		if len(ops) == 0 {
+			continue
+		}
+		usesBuffer := false
+		for _, o := range ops {
+			if _, path, okp := fieldPath(callCommon(o).Value); okp && len(path) > 0 && path[len(path)-1] == "last" {
+				usesBuffer = true
+			}
+		}
+		if !usesBuffer {
+			continue
+		}
+		isLockOp := func(in ssa.Instruction, kind string) bool {
+			m := mutexOpOf(in)
+			return m != nil && !m.deferred && m.kind == kind && strings.HasSuffix(m.owner, "eventOwner")
+		}
+		fn := fname(f)
+		key := "C18.V7|" + fn
+		inst := "every operation on the event's replay buffer is made with the buffer lock held"
+		var bad []string
+		for _, o := range ops {
+			if hit := reaches([]Point{{f.Blocks[0], 0}}, func(x ssa.Instruction) bool { return isLockOp(x, "Lock") }, func(x ssa.Instruction) bool { return x == o }); hit != nil {
+				bad = append(bad, a.P.Pos(o.Pos())+" is reachable without the lock")
+				continue
+			}
+			eachInstr(f, func(u ssa.Instruction) {
+				if !isLockOp(u, "Unlock") {
+					return
+				}
+				if hit := reaches([]Point{after(u)}, func(x ssa.Instruction) bool { return isLockOp(x, "Lock") }, func(x ssa.Instruction) bool { return x == o }); hit != nil {
+					bad = append(bad, a.P.Pos(o.Pos())+" is reachable after the unlock at "+a.P.Pos(u.Pos()))
+				}
+			})
+		}
+		if len(bad) > 0 {
+			r.Bad(rule, key, fn, a.P.Pos(ops[0].Pos()), inst, strings.Join(uniq(bad), "; ")+": the push that drops the oldest message clears the item a new subscriber is reading — the subscriber panics on the nil value (a remote subscriber's connection is closed)")
+		} else {
+			r.OK(rule, key, fn, a.P.Pos(ops[0].Pos()), inst, fmt.Sprintf("%d buffer operations, all between Lock and Unlock", len(ops)))
+		}
+	}
+}
